@@ -29,6 +29,8 @@ type Scenario struct {
 	Options func(o *vrt.Options)
 	// Kind classifies a verdict into a violation kind (stable word used in signatures).
 	Kind func(verdict string) string
+
+	base, params string
 }
 
 var registry = map[string]func(params string) *Scenario{}
@@ -42,6 +44,7 @@ func lookup(name, params string) *Scenario {
 		panic("conc: unknown scenario " + name)
 	}
 	sc := mk(params)
+	sc.base, sc.params = name, params
 	if sc.Name == "" {
 		sc.Name = name
 		if params != "" {
@@ -267,7 +270,11 @@ func runShard(t *task) *Stats {
 		}
 		// classify: replay with tracing to learn the deviation sites
 		tr := rp.Replay(r.Choices, sc.Body)
-		raceBefore = vrt.RaceErrors()
+		if vrt.RaceErrors() != raceBefore {
+			// reports printed during the classification replay belong to this schedule too
+			st.Races = mergeRaces(st.Races, collectRaces(sc, r))
+			raceBefore = vrt.RaceErrors()
+		}
 		v := &Violation{Choices: r.Choices, Verdict: r.Verdict, Outcome: r.Outcome, Kind: sc.kind(r.Verdict), Count: 1}
 		if tr.Verdict != r.Verdict && sc.kind(tr.Verdict) != v.Kind {
 			v.Kind = "nondeterministic-" + v.Kind
@@ -444,7 +451,12 @@ func ExploreScenario(p *Pool, name, params string, bound int, deadline time.Time
 	}
 	e := &vrt.Explorer{Bound: bound, MaxViol: 1 << 30}
 	var rootViol []*vrt.Result
+	raceBefore := vrt.RaceErrors()
 	e.OnResult = func(r *vrt.Result) {
+		if n := vrt.RaceErrors(); n != raceBefore {
+			total.Races = mergeRaces(total.Races, collectRaces(sc, r))
+			raceBefore = n
+		}
 		if r.Verdict != "" && !strings.HasPrefix(r.Verdict, "vrt-divergence") {
 			rootViol = append(rootViol, r)
 		}
@@ -538,6 +550,25 @@ func ReplayFile(r *hk.Replay) int {
 	}
 	fmt.Printf("verdict: %s\noutcome: %s\n", res.Verdict, res.Outcome)
 	if res.Verdict != "" {
+		fmt.Printf("VIOLATION property=%s replay=(replayed)\n", r.Property)
+		return 1
+	}
+	return 0
+}
+
+// ReplayRace re-executes the schedule of a race replay file; under the race-detector build the
+// report is printed again by the runtime.
+func ReplayRace(r *hk.Replay) int {
+	sc := lookup(r.Scenario, r.Params)
+	sc.apply()
+	before := vrt.RaceErrors()
+	res := (&vrt.Explorer{}).Replay(r.Choices, sc.Body)
+	for _, l := range res.Trace {
+		fmt.Println(l)
+	}
+	n := vrt.RaceErrors() - before
+	fmt.Printf("race reports in this execution: %d (race detector build: %v)\n", n, vrt.RaceEnabled)
+	if n > 0 {
 		fmt.Printf("VIOLATION property=%s replay=(replayed)\n", r.Property)
 		return 1
 	}
